@@ -12,8 +12,13 @@ import (
 	"io"
 	"math/rand"
 	"os"
+	"runtime"
 	"sort"
+	"sync"
+	"sync/atomic"
 	"time"
+
+	"github.com/anishathalye/porcupine"
 
 	"github.com/alephium/wormhole-fork/node/cmd/guardiand"
 	"github.com/alephium/wormhole-fork/node/pkg/db"
@@ -121,6 +126,169 @@ func prefixClass(st stream, w map[string]interface{}) string {
 		return ":target-chain-decimal-prefix"
 	}
 	return ""
+}
+
+// ---------------------------------------------------------------- lookups racing with stores
+
+type kvIn struct {
+	Put bool
+	Sha string
+}
+type kvOut struct {
+	Found bool
+	Sha   string
+}
+
+func sha8(b []byte) string { return hex.EncodeToString(b[:minInt(8, len(b))]) + fmt.Sprint(len(b)) }
+
+func minInt(a, b int) int {
+	if a < b {
+		return a
+	}
+	return b
+}
+
+// concurrentLookups: relayers poll an identifier until its VAA exists. Pollers spin on the identifier that is about
+// to be stored (local lookup and public RPC) while the writer stores it. Oracle: a lookup that starts after
+// StoreSignedVAA has returned finds exactly the stored bytes (the write-once-register half of linearizability, checked
+// on every lookup); a bounded sample of the per-identifier histories is additionally given to porcupine.
+func concurrentLookups(rng *rand.Rand, round int) {
+	d, cleanup, err := proc.OpenScratchDB()
+	if err != nil {
+		r.InconclusiveCase("cannot open store: " + err.Error())
+		return
+	}
+	defer cleanup()
+	srv := publicrpc.NewPublicrpcServer(zap.NewNop(), d, nil, proc.GovChain, proc.GovEmitter)
+	nIDs := 150
+	ids := make([]id, nIDs)
+	vs := make([]*vaa.VAA, nIDs)
+	bs := make([][]byte, nIDs)
+	em := vaa.Address{31: byte(1 + rng.Intn(200)), 0: byte(round)}
+	for i := range ids {
+		ids[i] = id{EC: chains[rng.Intn(len(chains))], Em: em, TC: chains[rng.Intn(len(chains))], Seq: uint64(i)}
+		vs[i] = mkVAA(rng, ids[i])
+		bs[i], _ = vs[i].Marshal()
+	}
+	t0 := time.Now()
+	now := func() int64 { return int64(time.Since(t0)) + 1 }
+	storeDone := make([]int64, nIDs) // atomic: logical time at which StoreSignedVAA returned (0: not yet)
+	var cur int64 = 0
+	var stop int32
+	var hmu sync.Mutex
+	hist := map[int][]porcupine.Operation{}
+	record := func(i, client int, in kvIn, out kvOut, call, ret int64) {
+		hmu.Lock()
+		if len(hist[i]) < 40 || in.Put {
+			hist[i] = append(hist[i], porcupine.Operation{ClientId: client, Input: in, Call: call, Output: out, Return: ret})
+		}
+		hmu.Unlock()
+	}
+	var wg sync.WaitGroup
+	for g := 0; g < 4; g++ {
+		wg.Add(1)
+		go func(g int) {
+			defer wg.Done()
+			for atomic.LoadInt32(&stop) == 0 {
+				i := int(atomic.LoadInt64(&cur))
+				if g%2 == 1 && i+1 < nIDs {
+					i++ // half of the pollers are one identifier ahead
+				}
+				doneAt := atomic.LoadInt64(&storeDone[i])
+				call := now()
+				var got []byte
+				var gerr error
+				if g < 3 {
+					got, gerr = d.GetSignedVAABytes(ids[i].vid())
+				} else {
+					var resp *publicrpcv1.GetSignedVAAResponse
+					resp, gerr = srv.GetSignedVAA(context.Background(), &publicrpcv1.GetSignedVAARequest{MessageId: &publicrpcv1.MessageID{EmitterChain: publicrpcv1.ChainID(ids[i].EC), EmitterAddress: hex.EncodeToString(ids[i].Em[:]), TargetChain: publicrpcv1.ChainID(ids[i].TC), Sequence: ids[i].Seq}})
+					if gerr == nil {
+						got = resp.VaaBytes
+					}
+				}
+				ret := now()
+				r.Count("concurrent_lookups", 1)
+				found := gerr == nil
+				if found && !bytes.Equal(got, bs[i]) {
+					r.Violation("concurrent:lookup-returns-other-bytes-than-stored", map[string]interface{}{"id": ids[i].String()})
+				}
+				if !found && doneAt != 0 && doneAt < call {
+					r.Violation("concurrent:lookup-after-acknowledged-store-reports-not-found", map[string]interface{}{"id": ids[i].String(), "path": []string{"store", "store", "store", "public-rpc"}[g], "error": fmt.Sprint(gerr),
+						"store_returned_at_ns": doneAt, "lookup_called_at_ns": call})
+					atomic.StoreInt32(&stop, 1)
+				}
+				o := kvOut{Found: found}
+				if found {
+					o.Sha = sha8(got)
+				}
+				record(i, g, kvIn{}, o, call, ret)
+			}
+		}(g)
+	}
+	for i := 0; i < nIDs && atomic.LoadInt32(&stop) == 0; i++ {
+		atomic.StoreInt64(&cur, int64(i))
+		for k := rng.Intn(200); k > 0; k-- { // let the pollers ask for it first
+			runtime.Gosched()
+		}
+		call := now()
+		if err := d.StoreSignedVAA(vs[i]); err != nil {
+			r.InconclusiveCase("store failed: " + err.Error())
+			break
+		}
+		ret := now()
+		atomic.StoreInt64(&storeDone[i], ret)
+		record(i, 9, kvIn{Put: true, Sha: sha8(bs[i])}, kvOut{}, call, ret)
+		r.Count("concurrent_stores", 1)
+		if got, err := d.GetSignedVAABytes(ids[i].vid()); err != nil || !bytes.Equal(got, bs[i]) {
+			r.Violation("concurrent:writer-does-not-read-its-own-acknowledged-store", map[string]interface{}{"id": ids[i].String(), "error": fmt.Sprint(err)})
+			break
+		}
+	}
+	atomic.StoreInt32(&stop, 1)
+	wg.Wait()
+	// afterwards every identifier is found on both paths
+	for i := range ids {
+		if atomic.LoadInt64(&storeDone[i]) == 0 {
+			continue
+		}
+		if got, err := d.GetSignedVAABytes(ids[i].vid()); err != nil || !bytes.Equal(got, bs[i]) {
+			r.Violation("concurrent:stored-VAA-not-found-after-the-run", map[string]interface{}{"id": ids[i].String(), "error": fmt.Sprint(err)})
+			break
+		}
+	}
+	// porcupine over the recorded per-identifier histories (write-once register)
+	model := porcupine.Model{
+		Init: func() interface{} { return "" },
+		Step: func(st, in, out interface{}) (bool, interface{}) {
+			i, o := in.(kvIn), out.(kvOut)
+			if i.Put {
+				return true, i.Sha
+			}
+			if st.(string) == "" {
+				return !o.Found, st
+			}
+			return o.Found && o.Sha == st.(string), st
+		},
+	}
+	checked := 0
+	for i, h := range hist {
+		if checked >= 40 {
+			break
+		}
+		checked++
+		switch res := porcupine.CheckOperations(model, h); res {
+		case true:
+			r.Count("concurrent_histories_linearizable", 1)
+		default:
+			var ops []string
+			for _, o := range h {
+				ops = append(ops, fmt.Sprintf("c%d [%d,%d] %+v -> %+v", o.ClientId, o.Call, o.Return, o.Input, o.Output))
+			}
+			r.Violation("concurrent:lookup-history-not-linearizable", map[string]interface{}{"id": ids[i].String(), "history": ops})
+		}
+	}
+	r.Count("concurrent_rounds", 1)
 }
 
 func main() {
@@ -395,7 +563,14 @@ func main() {
 		cleanup()
 	}
 	_ = io.Discard
+	for round := 0; round < r.Pick(6, 120); round++ {
+		concurrentLookups(rng, round)
+	}
+	if r.GetCount("concurrent_lookups") == 0 {
+		r.Inconclusive("no lookup ever ran concurrently with a store")
+	}
+	r.Count("evaluations", r.GetCount("concurrent_stores"))
 	r.Count("evaluations", r.GetCount("lookups")+r.GetCount("gap_queries")+r.GetCount("admin_queries")+r.GetCount("batch_queries")+r.GetCount("gov_batch_queries"))
 	r.Assume("sequence windows are small (0..41): the gap scan is linear in the last sequence", "payloads are non-empty (the gap scan decodes every VAA of the stream)")
-	r.Finish("evaluations", "streams", "random multisets of VAAs over emitter/target chains {1,2,4,10,11,17,25,42,255,10001} (prefix families forced in half of the stores), 4 emitters incl. the governance emitter, overlapping sequence windows, overwrites; every stored id, its near misses and all neighbouring streams are queried through the store, the public RPC server and the admin service; distinct non-trivial = distinct (stream, present-sequence set) pairs queried", 50)
+	r.Finish("evaluations", "streams", "random multisets of VAAs over emitter/target chains {1,2,4,10,11,17,25,42,255,10001} (prefix families forced in half of the stores), 4 emitters incl. the governance emitter, overlapping sequence windows, overwrites; every stored id, its near misses and all neighbouring streams are queried through the store, the public RPC server and the admin service; then 4 pollers (store and public RPC) spin on the identifier about to be stored while a writer stores 150 VAAs per round: a lookup that starts after the store returned must find the exact bytes, sampled per-identifier histories checked with porcupine; distinct non-trivial = distinct (stream, present-sequence set) pairs queried", 50)
 }
